@@ -345,6 +345,7 @@ def run(check: Check):
            nontrivial=False)
   _schedule(check, wh, wff)
   _factor_loop(check, wh, wff)
+  _axis_loop(check, wh, wff)
   for f_, ff_ in ((rot, rff), (inv, iff)):
     for _, c in ff_.calls():
       if (ff_.ext(c.func) or '') in ('jax.numpy.sign', 'numpy.sign') and c.args and any(
@@ -535,4 +536,39 @@ def _factor_loop(check: Check, wh: FuncInfo, wff: FuncFlow):
       ok = False
   check.ob('R-SCHEDULE.factors', wh, f'while {txt(found.test)}', ok,
            'the factorisation of len(x) stops when the remaining length is 1: the loop test is 1 < n (2 <= n)', node=found)
+
+
+def _axis_loop(check: Check, wh: FuncInfo, wff: FuncFlow):
+  """One contraction per axis of the reshaped input: the loop that holds the einsum / tensordot runs over the axes (enumerate(shape),
+  range(len(shape))), not over a de-duplicated collection of block sizes (a dict or set keyed by size has one entry for two axes of
+  the same size, so the second axis is never transformed)."""
+  for n in wff.cfg.nodes:
+    if n.kind != 'for':
+      continue
+    if not any(isinstance(c, ast.Call) and (wff.ext(c.func) or '') in ('jax.numpy.einsum', 'jax.numpy.tensordot') for c in ast.walk(n.ast)):
+      continue
+    it = n.ast.iter
+    dedup = False
+    for v in wff.expand(it):
+      base = v
+      if isinstance(v, ast.Call) and isinstance(v.func, ast.Attribute) and v.func.attr in ('items', 'keys', 'values'):
+        base = v.func.value
+      for b in ([base] if not isinstance(base, ast.Name) else wff.expand(base)):
+        if isinstance(b, (ast.Set, ast.SetComp, ast.Dict, ast.DictComp)) or (isinstance(b, ast.Call) and (wff.ext(b.func) or '') in (
+            'builtins.set', 'builtins.frozenset', 'builtins.dict', 'dict.fromkeys')):
+          dedup = True
+    per_axis = any(isinstance(v, ast.Call) and (wff.ext(v.func) or '') in ('builtins.enumerate', 'builtins.range') for v in wff.expand(it))
+    check.ob('R-SCHEDULE.axes', wh, f'for {txt(n.ast.target)} in {txt(it)[:40]}', False if dedup else (True if per_axis else None),
+             'the transform loop visits every axis once' if not dedup else
+             'the transform loop runs over a set / dict of block sizes: two axes of the same size share one entry, so only one of them is '
+             'transformed (lengths like 128 * 128)', node=n.ast)
+  # identity-based bookkeeping (id(x), hash(x)) in the rotation of a tree: two positions holding the same array object would share
+  # one rotation although each position has its own key
+  for g in check.repo.module(MOD).functions():
+    gff = FuncFlow.of(check.repo, g)
+    for _, c in gff.calls():
+      if (gff.ext(c.func) or '') in ('builtins.id', 'builtins.hash'):
+        check.ob('R-NONDET', g, txt(c)[:40], False,
+                 'object identity / hash decides what is computed: leaves that happen to be the same object are not treated as the '
+                 'separate positions they are (each has its own key and must be inverted separately)', node=c, exact=True)
 
